@@ -69,6 +69,7 @@ func c13Core(run *mon.Run) {
 		go func() {
 			defer wg.Done()
 			defer func() { <-sem }()
+			defer run.Protect("c13 worker")
 			reused := a.mk()
 			if reused.Algorithm() != a.algo || reused.Size() != a.size {
 				run.Violate("C13:"+a.name+":metadata", fmt.Sprintf("Algorithm()/Size() = %v/%d", reused.Algorithm(), reused.Size()), nil)
@@ -123,6 +124,7 @@ func c13Core(run *mon.Run) {
 			go func() {
 				defer wg.Done()
 				defer func() { <-sem }()
+				defer run.Protect("c13 worker")
 				h := a.mk()
 				for l := l0; l < l0+16 && l <= 2*a.rate+2; l++ {
 					msg := patternBytes(l, l+7)
@@ -150,6 +152,7 @@ func c13Core(run *mon.Run) {
 			go func() {
 				defer wg.Done()
 				defer func() { <-sem }()
+				defer run.Protect("c13 worker")
 				r := run.Rand(fmt.Sprintf("%s-w%d", a.name, w))
 				h := a.mk()
 				for i := 0; i < nSplits/4; i++ {
@@ -202,6 +205,7 @@ func c13Core(run *mon.Run) {
 	go func() {
 		defer wg.Done()
 		defer func() { <-sem }()
+		defer run.Protect("c13 worker")
 		for l := 0; l <= 4*136; l++ {
 			msg := patternBytes(l, l+3)
 			var o3 [32]byte
@@ -318,6 +322,7 @@ func c13KMAC(run *mon.Run) {
 		go func() {
 			defer wg.Done()
 			defer func() { <-sem }()
+			defer run.Protect("c13 worker")
 			r := run.Rand(fmt.Sprintf("kmac-key-%d", kl))
 			key := mon.RandBytes(r, kl)
 			cust := mon.RandBytes(r, []int{0, 3, r.IntN(40)}[kl%3])
@@ -381,6 +386,7 @@ func c13KMAC(run *mon.Run) {
 		go func() {
 			defer wg.Done()
 			defer func() { <-sem }()
+			defer run.Protect("c13 worker")
 			r := run.Rand(fmt.Sprintf("kmac-cust-%d", cl))
 			key := mon.RandBytes(r, 16+r.IntN(50))
 			cust := mon.RandBytes(r, cl)
